@@ -257,16 +257,28 @@ func (e *Env) Cleanup() {
 
 // SetAccount creates or overwrites the account document of (supi, rg).
 func (e *Env) SetAccount(supi string, rg int32, quota int64, unitCost string) {
+	e.SetAccount64(supi, int64(rg), quota, unitCost)
+}
+
+// SetAccount64 takes the rating group as the Unsigned32 it is on the Diameter interfaces (numbers from 2^31 on are
+// stored as 64-bit integers, the way the driver stores an unsigned value that does not fit 32 signed bits).
+func (e *Env) SetAccount64(supi string, rg int64, quota int64, unitCost string) {
 	if e.FM.Get(Coll, supi, rg) != nil {
 		e.FM.SetField(Coll, supi, rg, "quota", strconv.FormatInt(quota, 10))
 		e.FM.SetField(Coll, supi, rg, "unitCost", unitCost)
 		return
 	}
-	e.FM.Put(Coll, bson.M{"ueId": supi, "ratingGroup": rg, "quota": strconv.FormatInt(quota, 10), "unitCost": unitCost})
+	var stored interface{} = int32(rg)
+	if rg > 1<<31-1 {
+		stored = rg
+	}
+	e.FM.Put(Coll, bson.M{"ueId": supi, "ratingGroup": stored, "quota": strconv.FormatInt(quota, 10), "unitCost": unitCost})
 }
 
 // Quota returns the stored balance of (supi, rg).
-func (e *Env) Quota(supi string, rg int32) (int64, error) {
+func (e *Env) Quota(supi string, rg int32) (int64, error) { return e.Quota64(supi, int64(rg)) }
+
+func (e *Env) Quota64(supi string, rg int64) (int64, error) {
 	d := e.FM.Get(Coll, supi, rg)
 	if d == nil {
 		return 0, fmt.Errorf("no account document for %s/%d", supi, rg)
@@ -284,6 +296,6 @@ func (e *Env) AddQuota(supi string, rg int32, amount int64) error {
 	if err != nil {
 		return err
 	}
-	e.FM.SetField(Coll, supi, rg, "quota", strconv.FormatInt(q+amount, 10))
+	e.FM.SetField(Coll, supi, int64(rg), "quota", strconv.FormatInt(q+amount, 10))
 	return nil
 }
